@@ -2,7 +2,7 @@ from vlib.runner import Ob
 
 def obligations(tier, seed):
     U = ["src/hamm.c"]
-    common = dict(harness="h_c12.c", units=U, stubs=[], vin_size=256)
+    common = dict(harness="h_c12.c", units=U, stubs=[], vin_size=256, flags=["--no-undefined-shift-check"])
     return [
         Ob("vps_pdc_roundtrip", func="h_vps_pdc_roundtrip", unwind=14,
            desc="encode_vps_pdc then decode_vps_pdc returns the same CNI/PIL/PCS/PTY for every value; refusal iff out of range with buffer untouched; "
